@@ -263,8 +263,21 @@ def install_crypto(reg):
         return it._num(v)
 
     sf["nfc"] = lambda it, s: VStr(F_NFC()(sz(s)), "str")
-    sf["utf8"] = lambda it, s: VStr(F_UTF8()(sz(s)), "bytes")
-    sf["is_ascii"] = lambda it, s: VBool(z3.InRe(sz(s), ASCII_RE))
+    def utf8(it, s):
+        r = F_UTF8()(sz(s))
+        it.ctx.assume(uf("decodable_utf8", StringS, BoolS)(r))          # codec round trip, ground instance
+        it.ctx.assume(uf("decode_utf8", StringS, StringS)(r) == sz(s))
+        return VStr(r, "bytes")
+
+    sf["utf8"] = utf8
+    def is_ascii(it, s):
+        # a named predicate with its definition as a ground instance: equal arguments then give equal truth
+        # values by congruence alone (the sequence solvers do not always propagate equalities into regexes)
+        p = uf("is_ascii", StringS, BoolS)(sz(s))
+        it.ctx.assume(p == z3.InRe(sz(s), ASCII_RE))
+        return VBool(p)
+
+    sf["is_ascii"] = is_ascii
     sf["ascii"] = lambda it, s: VStr(sz(s), "bytes")
     sf["json_str"] = lambda it, j: VStr(J.s(to_json(j)), "str")
     sf["sha256_of"] = lambda it, b: VStr(sha_of(it, sz(b)), "bytes")
@@ -297,7 +310,7 @@ def install_crypto(reg):
     sf["spake2_key"] = lambda it, pw, ids, m1, m2: VStr(F_FINISH()(sz(pw), sz(ids), sz(m1), sz(m2)), "bytes")
     sf["spake2_accepts"] = lambda it, pw, ids, m1, m2: VBool(F_FINOK()(sz(pw), sz(ids), sz(m1), sz(m2)))
     sf["json_bytes"] = lambda it, d: VStr(json_bytes_of(it, to_json(d)), "bytes")
-    sf["hexstr"] = lambda it, b: VStr(uf("hexlify", StringS, StringS)(sz(b)), "str")
+    sf["hex_of"] = lambda it, b: VStr(uf("hexlify", StringS, StringS)(sz(b)), "str")
     sf["unhex"] = lambda it, s: VStr(uf("unhexlify", StringS, StringS)(sz(s)), "bytes")
     sf["is_hex"] = lambda it, s: VBool(uf("is_hex", StringS, BoolS)(sz(s)))
 
@@ -307,6 +320,18 @@ def install_crypto(reg):
 
     sf["json_parses"] = json_parses
     sf["json_of"] = lambda it, b: VJson(F_LOADS()(uf("decode_utf8", StringS, StringS)(sz(b))))
+
+    def json_has(it, j, key):
+        jz = to_json(j)
+        return VBool(z3.And(J.is_jdict(jz), OJ.is_present(z3.Select(J.d(jz), sz(key)))))
+
+    sf["json_has"] = json_has
+    sf["json_get"] = lambda it, j, key: VJson(OJ.v(z3.Select(J.d(to_json(j)), sz(key))))
+
+    def bcall_targets(it):
+        return VList([VStr(f"{e[1][0]}.{e[1][1]}") for e in it.ctx.trace if e[0] == "bcall"])
+
+    sf["bcall_targets"] = bcall_targets
 
     def n_events(it, name):
         name = it.concrete(name)
@@ -318,36 +343,40 @@ def install_crypto(reg):
         name, k, i = it.concrete(name), it.concrete(k), it.concrete(i)
         evs = [e for e in it.ctx.trace if e[0] == name]
         if k >= len(evs):
-            return NONE
+            return it.fresh("bytes", "no_event")     # the clause also counts the events, so it is false on this path
         return evs[k][1][i]
 
     sf["event_arg"] = event_arg
 
     def trace_order(it):
-        """the boundary calls, Automat inputs and contracted calls made so far, in order"""
+        """the boundary calls and Automat inputs made so far, in order"""
         out = []
         for e in it.ctx.trace:
             if e[0] == "bcall":
                 out.append(VStr("call:" + e[1][1]))
             elif e[0] == "input":
                 out.append(VStr("input:" + e[1][0]))
-            elif e[0] == "call":
-                out.append(VStr("call:" + e[1][0].split(":")[-1]))
         return VList(out)
 
     sf["trace_order"] = trace_order
 
 
+def _sz(v):
+    if isinstance(v, VOpt):
+        return _sz(v.inner)
+    return v.z
+
+
 def install_axiom_instances(reg):
     """cryptographic idealisations, available to lemmas only as explicit hypotheses about named arguments"""
     sf = reg.spec_funcs
-    sf["sha256_collision_free"] = lambda it, a, b: VBool(z3.Implies(F_SHA()(a.z) == F_SHA()(b.z), a.z == b.z))
+    sf["sha256_collision_free"] = lambda it, a, b: VBool(z3.Implies(F_SHA()(_sz(a)) == F_SHA()(_sz(b)), _sz(a) == _sz(b)))
 
     def hkdf_info_injective(it, k, n, i1, i2):
         nn = it._num(n)
         f = F_HKDF()
         t, e = z3.BoolVal(True), z3.StringVal("")
-        return VBool(z3.Implies(f(k.z, nn, t, e, i1.z) == f(k.z, nn, t, e, i2.z), i1.z == i2.z))
+        return VBool(z3.Implies(f(_sz(k), nn, t, e, _sz(i1)) == f(_sz(k), nn, t, e, _sz(i2)), _sz(i1) == _sz(i2)))
 
     sf["hkdf_info_injective"] = hkdf_info_injective
 
